@@ -340,9 +340,14 @@ func (c *context) RecvMsg() (*protocol.Message, error) {
 		c.cond.Wait()
 	}
 
-	m := c.repMsg
-	c.reqID = 0
-	c.repMsg = nil
+	var m *protocol.Message
+	if id == c.reqID {
+		// Only consume the reply (and retire the request) if it is still
+		// ours; a newer Send may have replaced the request while we waited.
+		m = c.repMsg
+		c.reqID = 0
+		c.repMsg = nil
+	}
 	c.receiveWait = false
 	c.cond.Broadcast()
 
